@@ -8,6 +8,7 @@ require (
 	github.com/SaoNetwork/sao v0.0.0
 	github.com/cosmos/cosmos-sdk v0.46.6
 	github.com/dvsekhvalnov/jose2go v1.5.0
+	github.com/ethereum/go-ethereum v1.10.26
 	github.com/ignite/cli v0.25.2
 	github.com/multiformats/go-multibase v0.1.1
 	github.com/tendermint/tendermint v0.34.23
@@ -59,7 +60,6 @@ require (
 	github.com/docker/go-units v0.5.0 // indirect
 	github.com/emicklei/proto v1.11.0 // indirect
 	github.com/emirpasic/gods v1.18.1 // indirect
-	github.com/ethereum/go-ethereum v1.10.26 // indirect
 	github.com/fatih/color v1.13.0 // indirect
 	github.com/felixge/httpsnoop v1.0.1 // indirect
 	github.com/fsnotify/fsnotify v1.5.4 // indirect
